@@ -112,6 +112,7 @@ fn judge(content: &[u8], start: usize, delivered: &[String], stats: &RunStats, w
 }
 
 const ALPHABET: &[&str] = &["a", "\u{e9}", "\u{1F600}", "\n"];
+// (the replacement character U+FFFD and NUL are ordinary characters of a line: they are part of the random contents)
 
 impl C10 {
     fn note(&self, st: &RunStats) {
@@ -146,7 +147,7 @@ fn random_content(rng: &mut Rng, tier: Tier) -> String {
     for _ in 0..nlines {
         let len = match rng.below(10) { 0 => 0, 1 if tier == Tier::Thorough => 8000 + rng.below(60000), 2 => 100 + rng.below(400), _ => rng.below(24) };
         for _ in 0..len {
-            s.push_str(match rng.below(12) { 0 => "\u{e9}", 1 => "\u{1F600}", 2 => "\u{20ac}", 3 => " ", 4 => "\r", _ => "x" });
+            s.push_str(match rng.below(14) { 0 => "\u{e9}", 1 => "\u{1F600}", 2 => "\u{20ac}", 3 => " ", 4 => "\r", 5 => "\u{fffd}", 6 => "\u{0}", _ => "x" });
         }
         s.push('\n');
     }
